@@ -69,17 +69,13 @@ void ares_destroy(ares_channel_t *channel)
    * callbacks need to hold a channel lock. */
   ares_channel_lock(channel);
 
-  /* Destroy all queries */
-  node = ares_llist_node_first(channel->all_queries);
-  while (node != NULL) {
-    ares_llist_node_t *next  = ares_llist_node_next(node);
-    ares_query_t      *query = ares_llist_node_claim(node);
+  /* Destroy all queries.  Always take the first one: a callback may call
+   * ares_cancel(), which ends the remaining queries and replaces the list, so
+   * no node may be remembered across a callback. */
+  while ((node = ares_llist_node_first(channel->all_queries)) != NULL) {
+    ares_query_t *query = ares_llist_node_val(node);
 
-    query->node_all_queries = NULL;
-    query->callback(query->arg, ARES_EDESTRUCTION, 0, NULL);
-    ares_free_query(query);
-
-    node = next;
+    ares_query_complete(query, ARES_EDESTRUCTION, 0, NULL);
   }
 
   ares_queue_notify_empty(channel);
